@@ -118,6 +118,11 @@ func (p *Machine) SkipBytes(count int32) {
 // initial escape byte of 12".
 const escapeByte = 12
 
+// maxOperators is the maximum number of operators executed by one call to Run
+const maxOperators = 10000
+
+var errTooManyOperators = errors.New("too many operators")
+
 // Run runs the instructions in the PostScript context asked by `handler`.
 // `localSubrs` and `globalSubrs` contains the subroutines that may be called in the instructions.
 func (p *Machine) Run(instructions []byte, localSubrs, globalSubrs [][]byte, handler OperatorHandler) error {
@@ -128,7 +133,7 @@ func (p *Machine) Run(instructions []byte, localSubrs, globalSubrs [][]byte, han
 	p.ArgStack.Top = 0
 	p.callStack.top = 0
 
-	for len(p.instructions) > 0 {
+	for nbOperators := 0; len(p.instructions) > 0; {
 		// Push a numeric operand on the stack, if applicable.
 		if hasResult, err := p.parseNumber(); hasResult {
 			if err != nil {
@@ -138,6 +143,12 @@ func (p *Machine) Run(instructions []byte, localSubrs, globalSubrs [][]byte, han
 		}
 
 		// Otherwise, execute an operator.
+		// The nesting of subroutines is bounded, but not the number of calls:
+		// bound the total number of operators (as Harfbuzz does with HB_CFF_MAX_OPS)
+		nbOperators++
+		if nbOperators > maxOperators {
+			return errTooManyOperators
+		}
 		b := p.instructions[0]
 		p.instructions = p.instructions[1:]
 
